@@ -526,7 +526,9 @@ def compare(ctx, U, fresh, conc, idx, c, o, m, f1_fixed):
             spec_val = bs['vals'][i] if 'vals' in bs else 'err:' + bs['err']
             if not (o['val'] == spec_val or floats_close(o['val'], spec_val)):
                 remembered = v['el']['name']
-                explained = tie_ok and remembered is not None and remembered != c['_forMol']
+                # F26: the estimate remembers the library's last decomposed molecule — another molecule, or none at all
+                # (then the elemental evaluation raises, since the F1 repair initialises the name to None)
+                explained = tie_ok and remembered != c['_forMol']
                 ctx.count('F26_seen' if explained else 'elemental_mismatch_unexplained')
                 ctx.violation('the elemental reference of an estimate is not that of the molecule its descriptors were obtained for',
                               dict(hist, estimate_for=U.mols[c['_forMol']],
